@@ -77,3 +77,94 @@ Theorem C09_gen_depth_unbounded : exists S t, wf_schema S = true /\
     forall f s', (f <= d)%nat -> gen_decode S PBinary f t (mkS l r0) <> Ok (v, s').
 Proof. exact gen_depth_unbounded. Qed.
 Print Assumptions C09_gen_depth_unbounded.
+
+(* ---------------------------------------------------------------------------------------------------------------
+   "never requests memory out of proportion to the input length", generated level.  GenAlloc.alloc_decode is the
+   emitted decoder (sync and async templates; alloc_decode_keep: the sync templates of keep_unknown_fields builds)
+   threaded with a ghost counter of the bytes it requests: Vec::with_capacity(count) / HashMap / HashSet
+   preallocation from the wire count exactly as the templates do it (async: no clamp for containers, the
+   runtime's prealloc_limit clamp for byte strings), strings and binaries, the frame of every struct / union decode
+   (the Box / Arc of a nested struct, the locals, the default values), the chunk retained for every unknown field.
+   Erasing the counter gives back the decoder the other theorems speak about.  Lemmas in Proofs/AllocGenP.v. *)
+From PV Require Import Thrift.Alloc.
+From PVGen Require Import GenKeep GenAsync Own GenAlloc Proofs.AllocGenP.
+
+Theorem C09_gen_alloc_erase : forall kb S p f t s a,
+  fst (alloc_decode MSync kb S p f t s a) = gen_decode S p f t s.
+Proof. exact alloc_erase_sync_gen. Qed.
+Print Assumptions C09_gen_alloc_erase.
+
+Theorem C09_gen_alloc_erase_async : forall kb S p f t s a,
+  fst (alloc_decode MAsync kb S p f t s a) = gen_decode_async S p f t s.
+Proof. exact alloc_erase_async_gen. Qed.
+Print Assumptions C09_gen_alloc_erase_async.
+
+Theorem C09_gen_alloc_erase_keep : forall S p f t s a,
+  fst (alloc_decode_keep S p f t s a) = gen_decode_keep S p f t s.
+Proof. exact alloc_erase_keep. Qed.
+Print Assumptions C09_gen_alloc_erase_keep.
+
+(* the bound.  alloc_class md kb S wgt t is a decidable certificate check: wgt gives every declared type a weight
+   that dominates its frame and the weights of its members, a container ADDS the (preallocated) size of its element
+   to the weight of the element -- so a cycle through a container has no certificate (F-09h) -- and the async
+   templates have no certificate for any container (F-09e).  With a certificate of weight g for t:
+       a = pot_w * g          (pot_w = 2 sync, 3 async)
+       b = 2 * g + bytes_k    (bytes_k = 1 sync, prealloc_limit + 1 async)
+   for EVERY byte string, protocol, fuel and reader context, whatever the outcome (value, error, panic). *)
+Theorem C09_gen_alloc : forall md kb S p wgt t, alloc_class md kb S wgt t = true ->
+  forall f (l : list byte) rcx,
+    snd (alloc_decode md kb S p f t (mkS l rcx) 0) <= alloc_a md kb S wgt t * Z.of_nat (length l) + alloc_b md kb S wgt t.
+Proof. exact gen_alloc_bound. Qed.
+Print Assumptions C09_gen_alloc.
+
+(* the entry point the correspondence runner executes (fuel length + 80, idle context, top_const for the call frame) *)
+Theorem C09_gen_alloc_top : forall md kb S p wgt t, alloc_class md kb S wgt t = true ->
+  forall l : list byte,
+    snd (alloc_decode_top md kb S p t l) <= alloc_a md kb S wgt t * Z.of_nat (length l) + (alloc_b md kb S wgt t + top_const md).
+Proof. exact gen_alloc_bound_top. Qed.
+Print Assumptions C09_gen_alloc_top.
+
+(* keep_unknown_fields builds, sync templates: every retained chunk is charged (header + skipped bytes + chunk_cost);
+   the `args` structs of such builds (F-13a: the rest of the input is taken as one chunk) have no certificate *)
+Theorem C09_gen_alloc_keep : forall S p wgt t, alloc_class MSync true S wgt t = true ->
+  forall f (l : list byte) rcx,
+    snd (alloc_decode_keep S p f t (mkS l rcx) 0) <= alloc_a MSync true S wgt t * Z.of_nat (length l) + alloc_b MSync true S wgt t.
+Proof. exact gen_alloc_bound_keep. Qed.
+Print Assumptions C09_gen_alloc_keep.
+
+Theorem C09_gen_alloc_keep_top : forall S p wgt t, alloc_class MSync true S wgt t = true ->
+  forall l : list byte,
+    snd (alloc_decode_keep_top S p t l) <= alloc_a MSync true S wgt t * Z.of_nat (length l) + (alloc_b MSync true S wgt t + top_const MSync).
+Proof. exact gen_alloc_bound_keep_top. Qed.
+Print Assumptions C09_gen_alloc_keep_top.
+
+(* the class is inhabited: a struct with list<string>, map<string, Inner>, Inner { set<i64> } (sync; a = 80000, b = 80001 for
+   the generous certificate of the example -- the runner computes the least one), a recursive string-only struct (async),
+   the first schema in a keep build *)
+Theorem C09_gen_alloc_nonvacuous :
+  (alloc_class MSync false al_schema al_wgt (TyRef 0) = true /\
+   alloc_a MSync false al_schema al_wgt (TyRef 0) = 80000 /\ alloc_b MSync false al_schema al_wgt (TyRef 0) = 80001) /\
+  alloc_class MAsync false al_schema_a [(0%nat, 20000)] (TyRef 0) = true /\
+  alloc_class MSync true al_schema_k [(1%nat, 40000); (0%nat, 100000)] (TyRef 0) = true.
+Proof. exact gen_alloc_nonvacuous. Qed.
+Print Assumptions C09_gen_alloc_nonvacuous.
+
+(* outside the class the statement is false.  F-09h: struct Tree { 2: list<Tree> kids } has no certificate, and the
+   count is not linear: 256 bytes request >= 600 * 256, 512 bytes >= 1200 * 512 (each nesting level preallocates
+   from a count bounded by the WHOLE remaining input; the ratio doubles with the length) *)
+Theorem C09_gen_alloc_nested_refuted :
+  (forall wgt, alloc_class MSync false tree_schema wgt (TyRef 0) = false) /\
+  (let l1 := tree_input 32 32 in let l2 := tree_input 64 64 in
+   length l1 = 256%nat /\ length l2 = 512%nat /\
+   600 * 256 <= snd (alloc_decode_top MSync false tree_schema PBinary (TyRef 0) l1) /\
+   1200 * 512 <= snd (alloc_decode_top MSync false tree_schema PBinary (TyRef 0) l2)).
+Proof. exact gen_alloc_nested_refuted. Qed.
+Print Assumptions C09_gen_alloc_nested_refuted.
+
+(* F-09e: typedef list<i32> through the async templates (Vec::with_capacity(announced count), no clamp, no check against
+   the remaining input): no certificate, and the 5 bytes 08 7f000000 request >= 4 * 2130706432 bytes *)
+Theorem C09_gen_alloc_async_refuted :
+  (forall wgt, alloc_class MAsync false modes_schema wgt (TyRef 0) = false) /\
+  4 * 2130706432 <= snd (alloc_decode_top MAsync false modes_schema PBinary (TyRef 0) [x08; x7f; x00; x00; x00]%byte).
+Proof. exact gen_alloc_async_refuted. Qed.
+Print Assumptions C09_gen_alloc_async_refuted.
